@@ -25,7 +25,7 @@
 (*   flight set of heartbeat ids suspended at the get_successors await     *)
 (*   walks  client-side state of paginated get_utxos walks                 *)
 (***************************************************************************)
-EXTENDS Tree
+EXTENDS Tree, Fees
 
 CONSTANTS MaxHeaders,      \* 100 in the code; scaled in model-checking instances
           MaxFeeTxs,       \* 10000 in the code
@@ -413,27 +413,8 @@ HeadersView(m, s, e) ==       \* e = -1: no end height
 (* flat fee / maximum of get_balance and of the fee percentiles, base /    *)
 (* rate / maximum of get_block_headers, base / per-byte of send_transaction*)
 (***************************************************************************)
-MinOf2(a, b) == IF a < b THEN a ELSE b
-
-\* the amount a call must carry to be accepted at all
-Required(f, ep, len) ==
-  CASE ep = "get_utxos" -> f.um
-    [] ep = "get_balance" -> f.balm
-    [] ep = "get_current_fee_percentiles" -> f.pctm
-    [] ep = "get_block_headers" -> f.hm
-    [] ep = "send_transaction" -> f.sb + f.sp * len
-
-\* cycles accepted from an update call that passed the gate and carried enough;
-\* success = the request did not fail with a request-level error
-Charged(f, ep, success, instr, len) ==
-  CASE ep = "get_utxos" -> f.ub + (IF success THEN MinOf2((instr \div 10) * f.ur, f.um - f.ub) ELSE 0)
-    [] ep = "get_balance" -> f.bal
-    [] ep = "get_current_fee_percentiles" -> f.pct
-    [] ep = "get_block_headers" -> f.hb + (IF success THEN MinOf2((instr \div 10) * f.hr, f.hm - f.hb) ELSE 0)
-    [] ep = "send_transaction" -> f.sb + f.sp * len
-
-\* avail = -1 stands for "more than any maximum"
-Enough(f, ep, len, avail) == avail < 0 \/ avail >= Required(f, ep, len)
+\* Required / Charged / Enough are defined in Fees.tla (a module of its own so that TLAPS can prove the
+\* unbounded statements of spec/proofs/FeesProofs.tla about exactly these operators)
 
 (***************************************************************************)
 (* send_transaction (C19): cls = "valid" iff the payload is exactly the    *)
